@@ -593,3 +593,150 @@ def crossable_aux_graph(case):
         check("one-activity-entry-per-node", length(handed["gv"]) == nodes)
     r = o.value
     check("returns-(is_passed, is_cross)", isinstance(r, tuple) and len(r) == 2 and r[0] is arrays[0] and r[1] is arrays[1])
+
+
+# ------------------------------------------------------------------------------------------------ Graph.line_graph
+LG = GR + "::Graph.line_graph"
+
+
+class IncView(GhostVal):
+    """incident_edges of a graph with n vertices: row v has LEN(v) entries (NB(v, k), IE(v, k)); representation
+    invariant (kept by add_edge, see graph_add_edge): IE(v, k) is the id of an existing edge"""
+    pv_pytype = "list"
+
+    def __init__(self, n, m, LEN, NB, IE):
+        self.n, self.m, self.LEN, self.NB, self.IE = n, m, LEN, NB, IE
+
+    def pv_len(self):
+        return self.n
+
+    def pv_getitem(self, v):
+        if not bool((v >= 0) & (v < self.n)):
+            raise PyRaise(IndexError("list index out of range"))
+        assume_fact(mk_bool(self.LEN(_zint(v)) >= 0))
+        return IncRowView(self, v)
+
+
+class IncRowView(GhostVal):
+    pv_pytype = "list"
+
+    def __init__(self, inc, v):
+        self.inc, self.v = inc, v
+
+    def pv_len(self):
+        return SInt(self.inc.LEN(_zint(self.v)))
+
+    def pv_getitem(self, k):
+        if not bool((k >= 0) & (k < self.pv_len())):
+            raise PyRaise(IndexError("list index out of range"))
+        e = self.inc.IE(_zint(self.v), _zint(k))
+        assume_fact(mk_bool(_z3.And(e >= 0, e < self.inc.m.t)))
+        return (SInt(self.inc.NB(_zint(self.v), _zint(k))), SInt(e))
+
+
+class SharedVertexPairs(GhostVal):
+    """the set built by line_graph: every member was added for some vertex v and two positions j < i of its incident
+    list, as the ordered pair of the two edge ids"""
+    pv_pytype = "set"
+
+    def __init__(self, inc):
+        self.inc = inc
+
+    def pair_of(self, v, i, j):
+        a, b = SInt(self.inc.IE(_zint(v), _zint(i))), SInt(self.inc.IE(_zint(v), _zint(j)))
+        return ite(a < b, a, b), ite(a < b, b, a)
+
+    def pv_getattr(self, name):
+        if name == "add":
+            return HostFn(lambda it, a, k: None, "set.add", raw=True)
+        self._no("set." + name)
+
+    def pv_iter(self):
+        def one():
+            v, i, j = fresh_int("lv"), fresh_int("li"), fresh_int("lj")
+            inc = self.inc
+            requires(And(v >= 0, v < inc.n, j >= 0, j < i, i < SInt(inc.LEN(v.t))))
+            assume_fact(mk_bool(_z3.And(inc.IE(v.t, i.t) >= 0, inc.IE(v.t, i.t) < inc.m.t, inc.IE(v.t, j.t) >= 0, inc.IE(v.t, j.t) < inc.m.t)))
+            x, y = self.pair_of(v, i, j)
+            self.last = (v, i, j, x, y)
+            return (x, y)
+        return AbstractSeq(one, "pairs of edges sharing a vertex")
+
+
+@harness("C06")
+def line_graph(case):
+    """Graph.line_graph(): one vertex per edge of the original graph; an edge between the ids of every two entries of
+    every vertex's incident list (each such pair is entered: completeness; nothing else is: soundness)"""
+    if CTX.mode != "sym":
+        return
+    n, m = sint("n"), sint("m")
+    requires(And(n >= 0, m >= 0))
+    LEN, NB, IE = _z3.Function("LEN", I, I), _z3.Function("NB", I, I, I), _z3.Function("IE", I, I, I)
+    inc = IncView(n, m, LEN, NB, IE)
+    g = OBJ(GR, "Graph", num_vertices=n, edges=EdgeList(m, _z3.Function("U", I, I), _z3.Function("V", I, I)), incident_edges=inc)
+    pairs = SharedVertexPairs(inc)
+    adds, joined = [], []
+    mark = {}
+
+    # completeness by loop invariant: for an ARBITRARY vertex v0 and positions j0 < i0 of its incident list the ghost
+    # flag `hit` records whether that pair has been entered; hit <=> the loops have passed (v0, i0, j0)
+    v0, i0, j0 = sint("v0"), sint("i0"), sint("j0")
+    requires(And(v0 >= 0, v0 < n, j0 >= 0, j0 < i0, i0 < SInt(LEN(v0.t))))
+    G = {"hit": _z3.BoolVal(False)}
+
+    def havoc_hit():
+        G["hit"] = _z3.Bool(CTX.fresh_name("hit"))
+
+    def passed(v, i=None, j=None):
+        t = v0 < v
+        if i is not None:
+            inner = i0 < i
+            if j is not None:
+                inner = Or(inner, And(i0 == i, j0 < j))
+            t = Or(t, And(v0 == v, inner))
+        return mk_bool(G["hit"]) == t
+
+    def on_add(ns, value):
+        adds.append(value)
+        x, y = pairs.pair_of(ns.v, ns.i, ns.j)
+        check("entered-pair-is-the-ordered-pair-of-the-two-edge-ids", isinstance(value, tuple) and len(value) == 2 and And(value[0] == x, value[1] == y))
+        G["hit"] = _z3.Or(G["hit"], And(ns.v == v0, ns.i == i0, ns.j == j0).t)
+
+    watch("add", LG, "edges", on_add)
+
+    def head2(ns):
+        mark["a"] = len(adds)
+        return None
+
+    def end2(ns, token):
+        check("every-two-entries-of-an-incident-list-are-entered-once", len(adds) - mark["a"] == 1)
+
+    def add_edge(it, args, kwargs):
+        joined.append((args[1], args[2]))
+        check("line-graph-edge-joins-existing-edge-ids", And(args[1] >= 0, args[1] < m, args[2] >= 0, args[2] < m))
+
+    use_contract(GR + "::Graph.add_edge", add_edge)
+
+    def head3(ns):
+        mark["j"] = len(joined)
+        return None
+
+    def end3(ns, token):
+        new = joined[mark["j"]:]
+        v, i, j, x, y = pairs.last
+        check("every-member-becomes-exactly-one-edge", len(new) == 1)
+        if len(new) == 1:
+            check("between-the-two-edge-ids-of-the-member", And(new[0][0] == x, new[0][1] == y))
+
+    T = {"edges": lambda: pairs, "x": "int", "y": "int", "i": "int", "j": "int"}
+    loop_spec(LG, 0, inv=lambda ns: [ns.v >= 0, passed(ns.v)], modifies=["edges"], types=dict(T), ghost_havoc=havoc_hit)
+    loop_spec(LG, 1, inv=lambda ns: [ns.v >= 0, ns.v < n, ns.i >= 0, passed(ns.v, ns.i)], modifies=["edges"], types=dict(T), ghost_havoc=havoc_hit)
+    loop_spec(LG, 2, inv=lambda ns: [ns.v >= 0, ns.v < n, ns.i >= 0, ns.i < SInt(LEN(_zint(ns.v))), ns.j >= 0, passed(ns.v, ns.i, ns.j)], modifies=["edges"], types=dict(T),
+              ghost_havoc=havoc_hit, at_head=head2, at_end=end2)
+    loop_spec(LG, 3, inv=lambda ns: [], modifies=[], types={"x": "int", "y": "int"}, at_head=head3, at_end=end3)
+    o = call(REAL(GR, "Graph.line_graph"), g)
+    check("no-exception", not o.raised)
+    if o.raised:
+        return
+    check("one-vertex-per-original-edge", attr(o.value, "num_vertices") == m)
+    check("the-arbitrary-pair-of-incident-entries-was-entered", mk_bool(G["hit"]))
